@@ -8,7 +8,7 @@ which streams were opened) runs `streamRouting`, which starts
 * a `proxyStreamSender`   — `SetRemoteSendChan(c, ch)`; `RegisterShard(c)` = `addLocalShard` (entry
   stamped with `time.Now()`), then `onLocalShardChange` → `notifyReceiversOfNewShard` → for every
   active receiver routing to `c`'s cluster `sendPendingWatermarkToShard(c)` (look the channel of `c`
-  up, non-blocking send, NO `recover`); waits for the stream's shutdown signal; `close(ch)`;
+  up, non-blocking send, guarded by `recover` since its fix: `Cfg.replayRecover`); waits for the stream's shutdown signal; `close(ch)`;
   deferred `UnregisterShard(c, stamp)` (delete under the lock when the stamp matches, unlock, then
   `removeLocalShard` deletes AGAIN unconditionally); deferred `RemoveRemoteSendChan(c, ch)` (only
   when identical);
@@ -32,20 +32,33 @@ notation "Tok" => Nat
 /-- shard `c` of cluster `k` is the number `100*k + c` -/
 def clusterOf (c : Shard) : Nat := c / 100
 
-/-- model parameters: the `recover` guard per call site and the two clean-up variants -/
+/-- model parameters: the `recover` guard per call site and the variants of the clean-up steps.
+    The defaults mirror the CURRENT tree; every other value is a tree before one of the `fix:` commits. -/
 structure Cfg where
   /-- pre-`0c8aedd` receiver clean-up: remove cancel function and active receiver even when a successor terminated us -/
   cleanupUnconditional : Bool := false
-  /-- `sendPendingWatermarkToShard` (watermark replay): guarded by `recover`? (current tree: no) -/
-  replayRecover : Bool := false
+  /-- before the fix of C08-unregister-double-delete: `UnregisterShard` called `removeLocalShard` (a second,
+      unconditional delete) after releasing the lock -/
+  secondDelete : Bool := false
+  /-- `sendPendingWatermarkToShard` (watermark replay) guarded by `recover`?  (`false`: before the fix of
+      C08-replay-send-on-closed-channel) -/
+  replayRecover : Bool := true
   /-- `DeliverMessagesToShardOwner` -/
   deliverRecover : Bool := true
   /-- the watermark broadcast in `recvReplicationMessages` -/
   bcastRecover : Bool := true
 deriving Repr, DecidableEq
 
+/-- the current tree -/
 def Cfg.cur : Cfg := {}
+/-- the tree before `fix:` 0c8aedd (unconditional receiver clean-up) -/
 def Cfg.preFix : Cfg := { cleanupUnconditional := true }
+/-- the tree before the fix of the second delete in `UnregisterShard` -/
+def Cfg.beforeUnregFix : Cfg := { secondDelete := true }
+/-- the tree before `sendPendingWatermarkToShard` got its `recover` -/
+def Cfg.beforeReplayFix : Cfg := { replayRecover := false }
+/-- the tree before both of these fixes (what the harness compares an unpatched checkout with: `VERIF_C08_MODEL=asis`) -/
+def Cfg.asIs : Cfg := { secondDelete := true, replayRecover := false }
 
 /-- program counter of a sender (`proxyStreamSender.Run`); the value names the NEXT step -/
 inductive SPc where
@@ -55,7 +68,7 @@ inductive SPc where
   | notify (todo : List Tok) (hand : Option Tok)  -- receivers still to notify; channel looked up for the current one
   | running                                 -- waits for the shutdown signal (point `sender.beforeClose`); next: `close`
   | closed                                  -- (point `sender.afterClose`) next: `UnregisterShard` first delete
-  | unreg                                   -- deleted own entry, unlocked (point `UnregisterShard.afterUnlock`); next: `removeLocalShard`
+  | unreg                                   -- deleted own entry, unlocked (point `UnregisterShard.afterUnlock`); next: the rest of `UnregisterShard`
   | rmChan                                  -- next: `RemoveRemoteSendChan(expected)`
   | done
 deriving Repr, DecidableEq
@@ -264,10 +277,13 @@ def step (c : Cfg) (σ : State) (a : Act) : Option State :=
       | none => some (σ.setInc i { x with spc := .rmChan })
     else none
   | .sUnregAgain i =>
+    -- the rest of `UnregisterShard` after the unlock: announcement, callbacks — and, before its fix, a second delete
     let x := σ.inc i
     if x.spc = .unreg then
-      some (steal ((σ.setInc i { x with spc := .rmChan }).setLocal (adel σ.localShards x.shard)) i .localShards
-        ((aget σ.localShards x.shard).map (·.1)))
+      if c.secondDelete then
+        some (steal ((σ.setInc i { x with spc := .rmChan }).setLocal (adel σ.localShards x.shard)) i .localShards
+          ((aget σ.localShards x.shard).map (·.1)))
+      else some (σ.setInc i { x with spc := .rmChan })
     else none
   | .sRmChan i =>
     let x := σ.inc i
